@@ -63,8 +63,8 @@ def g_cfg(maxtx, alphabet, pool, mode="leaf", prices="1, 2, 3", versions="5", al
 
 def behaviours_of(res):
     # sorted: TLC's workers print in a nondeterministic order, the seeded sampling must not depend on it
-    return sorted((v["h"] for v in res.printed if isinstance(v, dict) and v.get("kind") == "B"),
-                  key=lambda b: json.dumps(b, sort_keys=True))
+    uniq = {json.dumps(v["h"], sort_keys=True): v["h"] for v in res.printed if isinstance(v, dict) and v.get("kind") == "B"}
+    return [uniq[k] for k in sorted(uniq)]
 
 
 def nontrivial(b):
@@ -87,7 +87,7 @@ def generate(ctx):
     nw = len(behs)
     # M: exhaustive design-level runs (known refund accounting searched past)
     full = "FALSE" if quick else "TRUE"
-    # every class combination under YouV5, and under YouV1..YouV4 (quick: those with the next nonce; thorough: all of them)
+    # every class combination under YouV5, and under YouV1..YouV4 (quick: the staking classes with the next nonce and a slice of the others; thorough: all)
     m1 = ctx.tlc_must("TxApply", m_cfg(1, "full", POOL1, versions=ALLV, allfull=full), name="M_classes", timeout=900, coverage=not quick)
     m3 = ctx.tlc_must("TxApply", m_cfg(3 if quick else 4, "seq", POOL3, versions="3, 4, 5"), name="M_sequences", timeout=1500)
     # ... and without the weakening: the design-level counterexamples of the known findings are exported and replayed
@@ -116,7 +116,7 @@ def generate(ctx):
     g3 = ctx.tlc_must("TxApply", g_cfg(3, "seq", POOL3, versions="5" if quick else "3, 4, 5"), name="G1_sequences", timeout=900)
     gs = ctx.tlc_must("TxApply", g_cfg(0, "seq", POOL1, mode="sig"), name="G1_signatures", timeout=300)
     gq = ctx.tlc_must("TxApply", g_cfg(2 if quick else 3, "sig", POOL1, mode="sigseq"), name="G1_sender_cache", timeout=600)
-    # V sweep: 24 classes x network ids {1, 2, 99} x every V in 0 .. 2*net + 40
+    # V sweep: 12 classes x network ids {1, 2, 99} x every V in 0 .. 2*net + 40
     gv = ctx.tlc_must("TxApply", g_cfg(0, "seq", POOL1, mode="vsweep"), name="G1_v_sweep", timeout=300)
     b1, b3, bs = behaviours_of(g1), behaviours_of(g3), behaviours_of(gs) + behaviours_of(gq) + behaviours_of(gv)
     rnd = random.Random(ctx.seed)
@@ -205,7 +205,7 @@ def run(ctx):
                        "limit x value x recipient/payload x price) under both call patterns + every sequence of three transactions of the "
                        "reduced alphabet against a pool fitting two + signature cases (class x mutation) + sender-cache cases (class x mutation x "
                        "every sequence of up to 2 (thorough 3) home/foreign signers on one object) + V sweep (class x network id x every V in 0..2*net+40) + simulated longer sequences; the class combinations are run under "
-                       "protocol version 5 and under versions 1..4 (quick: those with the next nonce); "
+                       "protocol version 5 and under versions 1..4 (quick: the staking classes with the next nonce and a slice of the others); "
                        "non-trivial = a sequence of >= 2 transactions, a signature case, or a single transaction that is not the plain "
                        "valid transfer class; distinct by JSON")
     ctx.assumptions += ["ECDSA/secp256k1 itself is trusted",
